@@ -282,7 +282,7 @@ func loadProgram(hfs []*HarnessFile) (*Program, map[string]*ssa.Package, error) 
 // ---------- package initialisation ----------
 
 var initAllowStd = map[string]bool{"errors": true, "io": true, "bytes": true, "strings": true, "strconv": true, "unicode/utf8": true, "math/bits": true, "math": true, "sort": true,
-	"bufio": true, "path/filepath": true, "container/list": true, "path": true, "internal/itoa": true, "context": true, "time": true, "unicode": false, "slices": true, "cmp": true, "hash/crc32": false}
+	"bufio": true, "path/filepath": true, "container/list": true, "path": true, "internal/itoa": true, "context": true, "time": true, "unicode": false, "slices": true, "cmp": true, "hash/crc32": true, "compress/flate": true, "compress/gzip": true, "encoding/binary": true}
 
 func (P *Program) initAllowed(pkg *ssa.Package) bool {
 	path := pkg.Pkg.Path()
@@ -493,7 +493,9 @@ func cmdCheck(args []string) int {
 					cfg.QTimeout = dd
 				}
 			}
-			jobs = append(jobs, NewJob(P, *prop, f.Name, h.Dir, fn, cfg))
+			j := NewJob(P, *prop, f.Name, h.Dir, fn, cfg)
+			j.NoStub = d["nostub"] != "" // this harness runs the real functions that other harnesses of the property stub
+			jobs = append(jobs, j)
 		}
 	}
 	if len(jobs) == 0 {
